@@ -325,6 +325,8 @@ def fam_dead_core(tier="quick"):
     n0 = ["nw 0", "nw 0 ; nw 0"]
     n1 = ["nn 0", "nn 0 ; nn 0", "st 1 1 sc"]
     L += exhaustive("ddN", ["N", "A0"], [n0, n1], 1)
+    # three waits on one Notify: at most ONE of the returns may be spurious
+    L += exhaustive("ddNt", ["N", "A0"], [["nw 0 ; nw 0 ; nw 0", "nw 0 ; ld 1 sc ; nw 0 ; nw 0"], n1[:2]], 1)
     # park / unpark, including unpark of a thread blocked on a join or a lock
     p0 = ["pk", "pk ; pk", "ld 0 sc"]
     p1 = ["up 0", "up 0 ; up 0", "st 0 1 sc ; up 0", "up 0 ; st 0 1 sc"]
@@ -338,6 +340,11 @@ def fam_dead_core(tier="quick"):
     c1 = ["n1 1", "na 1", "lk 0 ; st 2 1 sc ; ul 0 ; n1 1", "n1 1 ; n1 1"]
     L += exhaustive("ddC", ["M", "C", "A0"], [c0, c1], 1)
     L += exhaustive("ddC3", ["M", "C", "A0"], [c0[:1], c0[:1], c1], 1)
+    # two threads waiting on one condvar AT THE SAME TIME (each announces itself under the mutex, the notifier
+    # takes the mutex after both announcements, so both are in wait): deadlock-free, every waiter must be woken
+    for k, wake in enumerate((["n1 1", "n1 1"], ["n1 1", "na 1"], ["na 1"], ["n1 1", "lk 0", "ul 0", "n1 1"])):
+        L.append(prog_line(f"ddCw{k}", ["M", "C", "A0", "A0"], [["sp 1", "sp 2", "aw 2 1 sc", "aw 3 1 sc", "lk 0", "ul 0"] + wake + ["jn 1", "jn 2"],
+                                                              ["lk 0", "st 2 1 sc", "wt 1 0", "ul 0"], ["lk 0", "st 3 1 sc", "wt 1 0", "ul 0"]]))
     # rwlock
     r0 = ["rd 0 ; ld 1 sc ; urd 0", "wr 0 ; st 1 1 sc ; uwr 0", "rd 0 ; ld 1 sc ; wr 0 ; uwr 0 ; urd 0"]
     L += exhaustive("ddR", ["R", "A0"], [r0[:2], r0], 1)
@@ -384,6 +391,12 @@ def fam_wait_core(tier="quick"):
     n0 = ["nw 0 ; cr 1", "nw 0 ; nw 0 ; cr 1"]
     n1 = ["cw 1 ; nn 0", "cw 1 ; nn 0 ; nn 0"]
     L += exhaustive("wtN", ["N", "U"], [n0, n1], 1)
+    L += exhaustive("wtNt", ["N", "U"], [["nw 0 ; nw 0 ; nw 0 ; cr 1"], n1], 1)
+    # at most ONE spurious return per Notify: three waits, three notifications gated by acknowledgements (so
+    # they never coalesce behind the waiter's back and the program cannot deadlock); by the time the third wait
+    # returns, two real notifications have been consumed, hence the store made before the second is visible
+    L.append(prog_line("wtNg0", ["N", "A0", "U", "A0"], [["sp 1", "nw 0", "st 1 1 rlx", "nw 0", "st 3 1 rlx", "nw 0", "cr 2", "jn 1"],
+                                                         ["nn 0", "aw 1 1 rlx", "cw 2", "nn 0", "aw 3 1 rlx", "nn 0"]]))
     p0 = ["pk ; cr 0", "ld 1 sc ; pk ; cr 0"]
     p1 = ["cw 0 ; up 0", "cw 0 ; st 1 1 sc ; up 0"]
     L += exhaustive("wtP", ["U", "A0"], [p0, p1], 1)
@@ -408,6 +421,11 @@ def fam_chan_core(tier="quick"):
     L += exhaustive("chE", ["H", "U", "U"], [["rv 0 ; cr 1 ; rv 0 ; cr 2", "rv 0 ; cr 1", "trv 0 ; rv 0 ; cr 1 ; cr 2"],
                                                ["cw 1 ; sd 0 3 ; cw 2 ; sd 0 4", "cw 1 ; cw 2 ; sd 0 3 ; sd 0 4 ; sd 0 5"]], 1, main_post=["trv 0", "trv 0", "drx 0"])
     L += exhaustive("chF", ["H", "U", "U"], [["rv 0 ; rv 0 ; cr 1"], ["cw 1 ; sd 0 3"], ["sd 0 4", "sd 0 4 ; sd 0 5"]], 1, main_post=["trv 0", "drx 0"])
+    # the receiver is NOT the thread with the smallest id: it blocks in a child while senders with smaller ids
+    # are themselves about to send (flags make the schedules with a sender parked at its send reachable)
+    L.append(prog_line("chG0", ["H", "A0"], [["sp 1", "sp 2", "sd 0 5", "jn 1", "jn 2"], ["ld 1 sc", "sd 0 6"], ["st 1 1 sc", "rv 0", "rv 0"]]))
+    L.append(prog_line("chG1", ["H", "A0", "A0"], [["sp 1", "sp 2", "ld 1 sc", "ld 2 sc", "sd 0 5", "jn 1", "jn 2"], ["st 1 1 sc", "sd 0 6"], ["st 2 1 sc", "rv 0", "rv 0"]]))
+    L.append(prog_line("chG2", ["H", "A0"], [["sp 1", "sp 2", "sp 3", "jn 1", "jn 2", "jn 3"], ["ld 1 sc", "sd 0 6"], ["ld 1 sc", "sd 0 7"], ["st 1 1 sc", "rv 0", "rv 0"]]))
     return L
 
 
@@ -451,6 +469,10 @@ def fam_arc_core(tier="quick"):
     L.append(prog_line("arH1", ["K", "U", "A0"], [["ac 0 0 2", "sp 1", "aw 2 1 rlx", "au 0 0", "cw 1", "jn 1"], ["cw 1", "ad 0 2", "st 2 1 rlx"]]))
     L.append(prog_line("arH2", ["K", "U", "A0"], [["ac 0 0 2", "sp 1", "aw 2 1 rlx", "ad 0 0", "cw 1", "jn 1"], ["cw 1", "ad 0 2", "st 2 1 rlx"]]))
     L.append(prog_line("arD2", ["K"], [["ac 0 0 1", "ac 0 0 2", "ac 0 0 3", "sp 1", "sp 2", "sp 3", "an 0 0", "ad 0 0"], ["ad 0 1"], ["ad 0 2"], ["ad 0 3"]]))
+    # three handles: EVERY earlier drop (not only the latest) happens-before the unique owner's access
+    for k, fin in enumerate((["ag 0 0", "cw 1", "cw 3", "jn 1", "jn 2", "ad 0 0"], ["au 0 0", "cw 1", "cw 3", "jn 1", "jn 2"])):
+        L.append(prog_line(f"arH{3 + k}", ["K", "U", "A0", "U", "A0"], [["ac 0 0 1", "ac 0 0 2", "sp 1", "sp 2", "aw 2 1 rlx", "aw 4 1 rlx"] + fin,
+                                                                      ["cw 1", "ad 0 1", "st 2 1 rlx"], ["cw 3", "ad 0 2", "st 4 1 rlx"]]))
     return L
 
 
@@ -948,6 +970,8 @@ def fam_race_core(tier="quick"):
     # accesses happen-before the exclusive access (the flag is relaxed: it orders nothing by itself)
     L.append(prog_line(f"rcGm{n[0]}", ["K", "U", "A0"], [["ac 0 0 2", "sp 1", "aw 2 1 rlx", "ag 0 0", "cw 1", "jn 1", "ad 0 0"], ["cw 1", "ad 0 2", "st 2 1 rlx"]])); n[0] += 1
     L.append(prog_line(f"rcGm{n[0]}", ["K", "U", "A0"], [["ac 0 0 2", "sp 1", "aw 2 1 rlx", "au 0 0", "cw 1", "jn 1"], ["cw 1", "ad 0 2", "st 2 1 rlx"]])); n[0] += 1
+    L.append(prog_line(f"rcGm{n[0]}", ["K", "U", "A0", "U", "A0"], [["ac 0 0 1", "ac 0 0 2", "sp 1", "sp 2", "aw 2 1 rlx", "aw 4 1 rlx", "ag 0 0", "cw 1", "cw 3", "jn 1", "jn 2", "ad 0 0"],
+                                                                    ["cw 1", "ad 0 1", "st 2 1 rlx"], ["cw 3", "ad 0 2", "st 4 1 rlx"]])); n[0] += 1
     # locks
     add("Mx", ["U", "M"], [["lk 1", "cw 0", "ul 1"], ["lk 1", "cr 0", "ul 1"]])
     add("Mx", ["U", "M"], [["lk 1", "cw 0", "ul 1"], ["lk 1", "cw 0", "ul 1"], ["lk 1", "cr 0", "ul 1"]])
